@@ -90,7 +90,7 @@ def _stream_fn(kind, spec, rpl, fmax, gmax, nlines=2, nbuf=2, tag=""):
             pre.append(f"1 <= s{i} <= e{i} <= length and e{i} - s{i} + 1 <= {fmax} and e{i} - s{i} + 1 <= {nbuf} * buf")
             nums.append(f"(s{i}, e{i})")
             tot.append(f"(e{i} - s{i} + 1)")
-    name = f"st_{kind}_{re.sub(r'[^A-Za-z0-9]', '', spec.replace('+', 'p').replace('-', 'm'))}_r{rpl}{tag}"
+    name = f"st_{kind}_{re.sub(r'[^A-Za-z0-9]', '', spec.replace('+', 'p').replace('-', 'm'))}_r{rpl}{tag}" + ("" if (nlines, nbuf) == (2, 2) else f"_l{nlines}b{nbuf}")
     src = f'''
 
 def {name}({", ".join(args)}, length: int, off: int, leb: int, buf: int, L: int) -> bool:
@@ -296,6 +296,8 @@ def replay_stream(cond, args, kwargs):
             detail += f"; a chunk of {biggest[0]} residues exceeds the buffer size {a['buf']}"
         return {"reproduced": bad, "observed": detail}
 
+
+from vlib.props.c03b import replay_write_assembly  # noqa: E402,F401
 
 BOUNDS = ["random access: interval <= 3 input lines, everything else unbounded", "streams: <= 3 rows, fragments <= 2-3 input lines and <= 2-3 buffers, records <= 2-3 output lines, input line widths 1,2,3,4,7"]
 OUTSIDE = ["byte CONTENT (abstracted to provenance; the complement table is C14's lemma, the indexer's content handling is C04)",
